@@ -292,7 +292,7 @@ def run(prop, args):
 
     exe, px = vf.build_driver("drv_bounds", "plain")
     chk.extra["build"] = px["hash"]
-    reqs = gen(rng, 700 if quick else 100000)
+    reqs = gen(rng, 700 if quick else 200000)
     cov = cover_boundary(rng)
     reqs += cov if not quick else rng.sample(cov, 900)
     chk.extra["cover_boundary_requests"] = len(cov)
@@ -314,7 +314,7 @@ def run(prop, args):
     chk.sample({"request_script_lines": reqs[:2]})
     configs = CONFIGS[:3] if quick else CONFIGS
     traces = []
-    nb = 4 if quick else 16
+    nb = 4 if quick else 24
     for ci, dis in enumerate(configs):
         for b in range(nb):
             part = reqs[b::nb]
